@@ -9,7 +9,7 @@ N="${1:-40}"; REPS="${2:-2}"; shift; shift
 IDS="$@"; [ -z "$IDS" ] && IDS=$(python3 -c "print(' '.join('C%02d'%i for i in range(1,21)))")
 ./check --build || exit 2
 echo "map ranges / sync.Map.Range in the harness (must be empty or sorted-key helpers only):"
-grep -rn "range .*map\[\|\.Range(" internal cmd --include=*.go | grep -v "SortedKeys\|sortedKeys" | head
+grep -rn "sync\.Map\|\.Range(func" internal cmd --include=*.go | head
 fail=0
 for id in $IDS; do
   BIN=./bin/verifctl
